@@ -260,7 +260,7 @@ func (c01) Execute(sc core.Script, keep bool) *core.Result {
 		if zt > 0 {
 			res.Probes["short-t"]++
 		}
-		cl := fmt.Sprintf("r%d s%d t%d", b2i(zr > 0), b2i(zs > 0), b2i(zt > 0))
+		cl := fmt.Sprintf("r%ds%dt%d", b2i(zr > 0), b2i(zs > 0), b2i(zt > 0))
 		classes = append(classes, sg.Op[4:]+":"+cl)
 		if zr+zs+zt > 0 {
 			res.Nontrivial = true
